@@ -354,6 +354,7 @@ func NewWorld(s Shape) (*World, error) {
 			v.Attach(w.Proc)
 		}
 		p.Proc = w.Proc
+		p.Stores = context2.NewStores(deadStore{p.Wal}, deadStore{p.ReadLog}, deadStore{p.Blob}, deadStore{p.Meta}, deadStore{p.VMeta})
 		w.Purge = append(w.Purge, p)
 		for r := 0; r < s.Repos[c]; r++ {
 			if err := hx.CreateRepo(u.Stores, RepoName(c, r)); err != nil {
